@@ -8,6 +8,7 @@ pub mod c04;
 pub mod c05;
 pub mod c07;
 pub mod c09;
+pub mod c20;
 pub mod search_common;
 pub mod c10;
 pub mod c11;
@@ -35,6 +36,7 @@ pub fn run(id: &str, tier: Tier) -> i32 {
         "C16" => c16::run(tier),
         "C17" => c17::run(tier),
         "C18" => c18::run(tier),
+        "C20" => c20::run(tier),
         _ => {
             println!("MACHINERY-ERROR unknown property {}", id);
             2
@@ -59,6 +61,7 @@ pub fn replay(id: &str, case: &Value) -> i32 {
         "C16" => c16::replay(case),
         "C17" => c17::replay(case),
         "C18" => c18::replay(case),
+        "C20" => c20::replay(case),
         _ => {
             println!("MACHINERY-ERROR unknown property {}", id);
             2
